@@ -7,8 +7,15 @@ package main
 
 import (
 	"bytes"
+	"context"
+	"flag"
+	"fmt"
+	"os"
+	"os/exec"
 	"sort"
+	"strconv"
 	"strings"
+	"time"
 
 	"github.com/aldas/go-modbus-client/server"
 )
@@ -17,6 +24,7 @@ func init() {
 	streams["srvasm"] = streamSrvAsm
 	streams["srvconn"] = streamSrvConn
 	streams["srvtwo"] = streamSrvTwo
+	streams["srvcfgchild"] = streamSrvCfgChild // run by srvconn / srvtwo in child processes
 }
 
 // ---------- byte streams ----------
@@ -398,9 +406,13 @@ func srvConnCase(g *srvRig, mode, kind int, chunks [][]byte) (args []V, outcome 
 }
 
 func srvEmitConn(g *srvRig, mode, kind int, chunks [][]byte) {
-	args, outc := srvConnCase(g, mode, kind, chunks)
 	stream := srvConcat(chunks)
-	emit("srv_conn", L(append([]V{I(mode), I(kind)}, args...)...), L(append(outc, srvWhole(mode, stream))...))
+	if !g.begin("srv_conn", g.caseArgs(I(mode), I(kind), srvChunksV(chunks), B(stream))) {
+		return
+	}
+	args, outc := srvConnCase(g, mode, kind, chunks)
+	emit("srv_conn", g.caseArgs(append([]V{I(mode), I(kind)}, args...)...), L(append(outc, srvWhole(mode, stream))...))
+	g.end()
 }
 
 // srvEmitScript runs one connection whose reads follow the script (client kind 3): data with and
@@ -410,6 +422,14 @@ func srvEmitScript(g *srvRig, mode int, events []srvEvent) {
 	for _, ev := range events {
 		stream = append(stream, ev.data...)
 	}
+	intended := make([]V, len(events))
+	for i, ev := range events {
+		intended[i] = L(B(ev.data), Bool(ev.dl))
+	}
+	if !g.begin("srv_conn", g.caseArgs(I(mode), I(3), L(intended...), B(stream))) {
+		return
+	}
+	defer g.end()
 	before := g.nerr.Load()
 	sc := newSrvScript(events)
 	rec := newSrvRec(sc)
@@ -427,7 +447,7 @@ func srvEmitScript(g *srvRig, mode int, events []srvEvent) {
 	if fail == nil {
 		outc = g.connOutcome(rec, before)
 	}
-	emit("srv_conn", L(I(mode), I(3), reads, B(stream)), L(append(outc, srvWhole(mode, stream))...))
+	emit("srv_conn", g.caseArgs(I(mode), I(3), reads, B(stream)), L(append(outc, srvWhole(mode, stream))...))
 }
 
 // srvEvents turns chunks into read events: how selects the error that comes with the data
@@ -594,6 +614,8 @@ func streamSrvConn(seed uint64, thorough bool) {
 		srvEmitConn(g1, 1, i%3, srvCut(s, srvRandomCuts(r, len(s))))
 	}
 	ok = g1.stop() && ok
+	// every combination of callbacks set / left nil x every handler class, in child processes
+	srvCfgChildren(seed, thorough, "conn")
 	if !ok {
 		emit("srv_conn", L(I(0), I(9), L(), B(nil)), L(L(), I(98), I(0), L(B(nil), I(1), I(0))))
 	}
@@ -613,61 +635,192 @@ func streamSrvTwo(seed uint64, thorough bool) {
 	g := newSrvRig(0)
 	probe := srvLegal(r, 3, 0x4000, 0)
 	for i := 0; i < n; i++ {
-		sa := srvStream(r, srvStreamOpts{maxFrames: 3, size: 0, badPct: 20})
-		// a request that panics, somewhere in A's stream
-		pf := srvLegal(r, srvFcs[r.intn(10)], r.u16()&^7|6, 0)
-		if i%5 != 4 {
-			ends := append([]int{0}, srvFrameEnds(sa)...)
-			at := ends[r.intn(len(ends))]
-			sa = append(append(append([]byte{}, sa[:at]...), pf...), sa[at:]...)
-		}
-		sb := srvStream(r, srvStreamOpts{maxFrames: 4, size: 0, badPct: 20, tailPct: 10})
-		ca := srvCut(sa, srvRandomCuts(r, len(sa)))
-		cb := srvCut(sb, srvRandomCuts(r, len(sb)))
-
-		before := g.nerr.Load()
-		b := g.dial()
-		a := g.dial()
-		half := r.intn(len(cb) + 1)
-		okB := true
-		for _, ch := range cb[:half] {
-			okB = okB && b.send(ch)
-		}
-		okB = okB && b.barrier()
-		for _, ch := range ca {
-			if !a.send(ch) {
-				break
-			}
-		}
-		a.barrier()
-		failA := a.finish()
-		midErr := g.nerr.Load()
-		outA := g.connOutcome(a.rec, before)
-		for _, ch := range cb[half:] {
-			okB = okB && b.send(ch)
-		}
-		b.barrier()
-		failB := b.finish()
-		outB := g.connOutcome(b.rec, midErr)
-		// the server still serves
-		c := g.dial()
-		alive := c.send(probe) && c.barrier()
-		failC := c.finish()
-		if failC != nil || len(c.got) == 0 {
-			alive = false
-		}
-		if failA != nil || failB != nil {
-			outA = []V{L(), I(99), I(0)}
-		}
-		a.rec.mu.Lock()
-		ra := srvChunksV(a.rec.reads)
-		a.rec.mu.Unlock()
-		b.rec.mu.Lock()
-		rb := srvChunksV(b.rec.reads)
-		b.rec.mu.Unlock()
-		emit("srv_two", L(I(0), ra, B(sa), rb, B(sb)), L(L(outA...), L(outB...), Bool(alive)))
+		srvTwoCase(g, r, i%5 != 4, probe)
 	}
 	if !g.stop() {
 		emit("srv_two", L(I(0), L(), B(nil), L(), B(nil)), L(L(L(), I(98), I(0)), L(L(), I(0), I(0)), I(0)))
+	}
+	// the same on servers with every combination of callbacks set / left nil, in child processes
+	srvCfgChildren(seed, thorough, "two")
+}
+
+func srvTwoCase(g *srvRig, r *rng, withPanic bool, probe []byte) {
+	sa := srvStream(r, srvStreamOpts{maxFrames: 3, size: 0, badPct: 20})
+	// a request that panics, somewhere in A's stream
+	pf := srvLegal(r, srvFcs[r.intn(10)], r.u16()&^7|6, 0)
+	if withPanic {
+		ends := append([]int{0}, srvFrameEnds(sa)...)
+		at := ends[r.intn(len(ends))]
+		sa = append(append(append([]byte{}, sa[:at]...), pf...), sa[at:]...)
+	}
+	sb := srvStream(r, srvStreamOpts{maxFrames: 4, size: 0, badPct: 20, tailPct: 10})
+	ca := srvCut(sa, srvRandomCuts(r, len(sa)))
+	cb := srvCut(sb, srvRandomCuts(r, len(sb)))
+	half := r.intn(len(cb) + 1)
+	if !g.begin("srv_two", g.caseArgs(I(0), srvChunksV(ca), B(sa), srvChunksV(cb), B(sb))) {
+		return
+	}
+	defer g.end()
+
+	before := g.nerr.Load()
+	b := g.dial()
+	a := g.dial()
+	okB := true
+	for _, ch := range cb[:half] {
+		okB = okB && b.send(ch)
+	}
+	okB = okB && b.barrier()
+	for _, ch := range ca {
+		if !a.send(ch) {
+			break
+		}
+	}
+	a.barrier()
+	failA := a.finish()
+	midErr := g.nerr.Load()
+	outA := g.connOutcome(a.rec, before)
+	for _, ch := range cb[half:] {
+		okB = okB && b.send(ch)
+	}
+	b.barrier()
+	failB := b.finish()
+	outB := g.connOutcome(b.rec, midErr)
+	// the server still serves
+	c := g.dial()
+	alive := c.send(probe) && c.barrier()
+	failC := c.finish()
+	if failC != nil || len(c.got) == 0 {
+		alive = false
+	}
+	if failA != nil || failB != nil {
+		outA = []V{L(), I(99), I(0)}
+	}
+	a.rec.mu.Lock()
+	ra := srvChunksV(a.rec.reads)
+	a.rec.mu.Unlock()
+	b.rec.mu.Lock()
+	rb := srvChunksV(b.rec.reads)
+	b.rec.mu.Unlock()
+	emit("srv_two", g.caseArgs(I(0), ra, B(sa), rb, B(sb)), L(L(outA...), L(outB...), Bool(alive)))
+}
+
+// ---------- every server configuration, in child processes ----------
+//
+// A default-configured server (OnErrorFunc, OnCloseConnFunc, OnAcceptConnFunc, OnServeFunc each
+// independently nil) must survive every handler behaviour, a panic included.  A defect there kills
+// the process, so these cases run in child invocations of this binary (hidden stream srvcfgchild):
+// the child names each case on stderr before running it and flushes after it; when a child dies
+// the parent emits that case with status 95 and restarts the child behind it.
+
+var (
+	srvCfgFlag   = flag.Int("srvcfg", 0, "srvcfgchild: callbacks set (1 error, 2 close, 4 accept, 8 serve)")
+	srvSkipFlag  = flag.Int("srvskip", 0, "srvcfgchild: number of cases to skip")
+	srvWhichFlag = flag.String("srvwhich", "conn", "srvcfgchild: conn|two")
+)
+
+func streamSrvCfgChild(seed uint64, thorough bool) {
+	cfg := *srvCfgFlag
+	r := newRng(seed ^ 0xcf9 ^ uint64(cfg)<<20)
+	g := newSrvRigCfg(0, cfg)
+	g.tagCfg, g.announce, g.skip = true, true, *srvSkipFlag
+	vol := 1
+	if thorough {
+		vol = 4
+	}
+	if *srvWhichFlag == "two" {
+		probe := srvLegal(r, 3, 0x4000, 0)
+		for i := 0; i < 3*vol; i++ {
+			srvTwoCase(g, r, i%3 != 2, probe)
+		}
+	} else {
+		// every handler class: response, typed, generic (errors.New / by value), wrapped, panic(), (nil, nil)
+		classes := []uint16{0, 4, 5, 5 | 8, 7, 6, 6 | 8}
+		for v := 0; v < vol; v++ {
+			for _, cls := range classes {
+				tid := func() uint16 { return r.u16()&^15 | cls }
+				one := srvLegal(r, srvFcs[r.intn(10)], tid(), 0)
+				three := append(append(srvLegal(r, srvFcs[r.intn(10)], srvTid(r, false)&^4, 0),
+					srvLegal(r, srvFcs[r.intn(10)], tid(), 0)...), srvLegal(r, srvFcs[r.intn(10)], srvTid(r, false)&^4, 0)...)
+				for _, s := range [][]byte{one, three} {
+					srvEmitConn(g, 0, 1, srvCut(s, srvRandomCuts(r, len(s))))
+					srvEmitScript(g, 0, srvEvents(r, srvCut(s, srvRandomCuts(r, len(s))), 2, true))
+				}
+			}
+			for _, s := range [][]byte{
+				append(srvLegal(r, 3, 0x5000, 0), srvGarbage(r)...),
+				append(srvBadFrame(r, 0x5101), srvLegal(r, 4, 0x5200, 0)...),
+				srvStream(r, srvStreamOpts{maxFrames: 4, allowPanic: true, size: 0, badPct: 30, tailPct: 30}),
+			} {
+				srvEmitConn(g, 0, 0, srvLockstepChunks(r, s))
+				srvEmitConn(g, 0, 2, [][]byte{s})
+				srvEmitScript(g, 0, srvEvents(r, srvCut(s, srvRandomCuts(r, len(s))), 2, true))
+			}
+		}
+	}
+	if !g.stop() {
+		emit("srv_conn", g.caseArgs(I(0), I(9), L(), B(nil)), L(L(), I(98), I(0), L(B(nil), I(1), I(0))))
+	}
+}
+
+// srvCfgChildren runs the child for each of the 16 configurations and relays its cases
+func srvCfgChildren(seed uint64, thorough bool, which string) {
+	exe, err := os.Executable()
+	tier := "quick"
+	if thorough {
+		tier = "thorough"
+	}
+	for cfg := 0; cfg < 16; cfg++ {
+		skip := 0
+		for attempt := 0; ; attempt++ {
+			if err != nil || attempt > 60 {
+				emit("srv_conn", L(I(0), I(9), L(), B(nil), I(cfg)), L(L(), I(98), I(0), L(B(nil), I(1), I(0))))
+				break
+			}
+			ctx, cancel := context.WithTimeout(context.Background(), 5*time.Minute)
+			cmd := exec.CommandContext(ctx, exe, "-seed", strconv.FormatUint(seed, 10), "-tier", tier,
+				"-srvcfg", strconv.Itoa(cfg), "-srvskip", strconv.Itoa(skip), "-srvwhich", which, "srvcfgchild")
+			var so, se bytes.Buffer
+			cmd.Stdout, cmd.Stderr = &so, &se
+			runErr := cmd.Run()
+			cancel()
+			// relay the complete lines the child produced
+			text := so.String()
+			if k := strings.LastIndexByte(text, '\n'); k >= 0 {
+				for _, line := range strings.Split(text[:k], "\n") {
+					out.WriteString(line)
+					out.WriteByte('\n')
+					emitted++
+				}
+			}
+			if runErr == nil {
+				break
+			}
+			// the child died: the last case it announced is the one that killed it
+			no, entry, args := -1, "", ""
+			var trace []string
+			for _, line := range strings.Split(se.String(), "\n") {
+				f := strings.SplitN(line, "\t", 4)
+				if len(f) == 4 && f[0] == "SRVCASE" {
+					no, _ = strconv.Atoi(f[1])
+					entry, args = f[2], f[3]
+					trace = nil
+				} else if len(trace) < 12 && line != "" {
+					trace = append(trace, line)
+				}
+			}
+			if no < 0 {
+				emit("srv_conn", L(I(0), I(9), L(), B(nil), I(cfg)), L(L(), I(98), I(0), L(B(nil), I(1), I(0))))
+				break
+			}
+			fmt.Fprintf(os.Stderr, "observe: child process died (%v) in case %d of configuration %d: %s %s\n%s\n",
+				runErr, no, cfg, entry, args, strings.Join(trace, "\n"))
+			outcome := "[[],95,0,[x,1,0]]"
+			if entry == "srv_two" {
+				outcome = "[[[],95,0],[[],95,0],0]"
+			}
+			out.WriteString(entry + "\t" + args + "\t" + outcome + "\n")
+			emitted++
+			skip = no + 1
+		}
 	}
 }
